@@ -65,7 +65,7 @@ RULE = ("packet lists: counts 0..300 x sizes on the lattice {0,1,254,255,256,509
         "_from_packets_try_preserve: old runs = from_packets over the size lattice x page parameters x start sequence, new packet lists in "
         "every relation to the old ones (identical lengths; same count and total, bytes redistributed by 1/2/50/254/255/256/all; same count "
         "other total; more / fewer packets; split or merged with the same total; empty), every relation reached on every run; moggsplit: inputs of 2-3 logical streams (grouped or scattered BOS pages, random "
-        "interleaving, 3-6 packets each incl. empty / 255 / 256-byte packets and one continued over several pages, 1-5 segments per page) x "
+        "interleaving, 3-6 packets each incl. empty / 255 / 256-byte packets and one continued over several pages, 1-5 segments per page; in one case of four one stream of 220-370 KiB in 45+ pages of 3-5 KiB) x "
         "{one input, two inputs with distinct serials, a byte-identical copy, an edited copy sharing all or some serials, three inputs sharing "
         "serials pairwise} x {--m3u or not} x {default, custom --pattern incl. a subdirectory} x --extension x stale outputs of an earlier "
         "run present or not; files: 2-3 serials "
@@ -1271,6 +1271,9 @@ def ref_stream_pages(serial, packets, nseg_max, eos=True):
     return pages
 
 
+_CYCLE = bytes(range(256))
+
+
 def moggsplit_input(inp):
     """bytes of one multiplexed input from its spec: {'name', 'salt', 'grouped', 'order_seed', 'streams': [{'serial', 'sizes', 'nseg'}]}"""
     import random
@@ -1278,7 +1281,7 @@ def moggsplit_input(inp):
     for st in inp["streams"]:
         prng = random.Random(st["serial"] * 13 + inp["salt"])
         pk = [bytes([(st["serial"] + 31 * i + inp["salt"]) & 255]) + bytes(prng.randrange(256) for _ in range(min(n, 24) - 1)) +
-              bytes([(i * 7 + j) & 255 for j in range(max(0, n - 24))]) if n else b"" for i, n in enumerate(st["sizes"])]
+              (_CYCLE * (n // 256 + 2))[(i * 7) & 255:][:max(0, n - 24)] if n else b"" for i, n in enumerate(st["sizes"])]
         streams.append(ref_stream_pages(st["serial"], pk, st["nseg"], st.get("eos", True)))
     orng = random.Random(inp["order_seed"])
     idx = [0] * len(streams)
@@ -1298,7 +1301,13 @@ MOGG_SCENARIOS = ("one-input", "two-inputs-distinct-serials", "two-inputs-shared
                   "three-inputs-mixed")
 
 
-def moggsplit_spec(rng, scenario, m3u, pattern, ext):
+def moggsplit_spec(rng, scenario, m3u, pattern, ext, large=False):
+    def large_stream(serial):
+        # 220-370 KiB in 45+ pages of 3-5 KiB: far more than any I/O buffer of the output file, so flushed data exists on disk
+        # long before the stream's later pages arrive
+        sizes = [rng.choice([3800, 4080, 4100, 4335, 5000]) for _ in range(rng.choice([60, 70, 76]))]
+        return {"serial": serial, "sizes": sizes, "nseg": rng.choice([12, 16, 20]), "eos": True}
+
     def stream(serial, big):
         sizes = [rng.choice([0, 1, 30, 254, 255, 256, 510, 700]) for _ in range(rng.choice([3, 4, 6]))]
         if big:
@@ -1312,6 +1321,9 @@ def moggsplit_spec(rng, scenario, m3u, pattern, ext):
     pool = rng.sample([0, 1, 2, 7, 0x1111, 0x7FFFFFFF, 0x80000000, 0xFFFFFFFF, 1002429366, 77], 7)
     n1 = rng.choice([2, 2, 3])
     a = inp("alpha.ogg", pool[:n1], 1)
+    if large:
+        j = rng.randrange(len(a["streams"]))
+        a["streams"][j] = large_stream(a["streams"][j]["serial"])
     if scenario == "one-input":
         inputs = [a]
     elif scenario == "two-inputs-distinct-serials":
@@ -1332,6 +1344,8 @@ def moggsplit_case(ctx, spec):
     import shutil, contextlib, importlib, common
     ctx.oracle_cases += 1
     ctx.count("moggsplit:" + spec["scenario"] + ("+m3u" if spec["m3u"] else "") + ("+pattern" if spec["pattern"] else ""))
+    if any(sum(st["sizes"]) > 200000 for inp in spec["inputs"] for st in inp["streams"]):
+        ctx.count("moggsplit:with-stream-over-200KiB")
     ctx.case(("mogg", repr(spec)))
     d = {"runner": "c15.moggsplit", "spec": spec}
     root = os.path.join(common.VERIF, ".run", "c15_moggsplit_%d" % os.getpid())
@@ -1455,12 +1469,12 @@ def oracle_moggsplit(ctx, reps):
         ctx.disagree("c15.ref_writer", "reference page writer and reference page reader disagree", {})
         return
     for rep in range(reps):
-        for scenario in MOGG_SCENARIOS:
-            for m3u in (False, True):
-                for custom in (False, True):
-                    pattern = rng.choice(MOGG_PATTERNS[1:]) if custom else None
-                    ext = rng.choice([None, None, "oga", "x"])
-                    moggsplit_case(ctx, moggsplit_spec(rng, scenario, m3u, pattern, ext))
+        for si, scenario in enumerate(MOGG_SCENARIOS):
+            for k, (m3u, custom) in enumerate([(False, False), (False, True), (True, False), (True, True)]):
+                pattern = rng.choice(MOGG_PATTERNS[1:]) if custom else None
+                ext = rng.choice([None, None, "oga", "x"])
+                large = (k == (si + rep) % 4)          # one case in four carries a stream of > 200 KiB next to the small ones
+                moggsplit_case(ctx, moggsplit_spec(rng, scenario, m3u, pattern, ext, large))
 
 
 # ---------------------------------------------------------------------------------------------------------
